@@ -9,7 +9,7 @@ import (
 func big(n int, salt byte) string {
 	b := make([]byte, n)
 	for i := range b {
-		b[i] = 'A' + byte((i*7+int(salt)*13+i/251)%26)
+		b[i] = 'A' + byte((i*7+int(salt)*5+i/251)%26)
 	}
 	return string(b)
 }
